@@ -725,7 +725,15 @@ impl TieredEngine {
         &self,
         doc_id: u64,
     ) -> Option<(Vec<f32>, std::collections::HashMap<String, String>)> {
-        if let Some(metadata) = self.cold_tier.fetch_metadata(doc_id) {
+        // Vector, metadata and coherence token are read under one cold-tier lock so that the
+        // pair handed out belongs to a single write even while the document is overwritten.
+        if let Some((canonical_embedding, metadata, canonical_coherence)) = self
+            .cold_tier
+            .bulk_fetch_with_coherence(&[doc_id])
+            .into_iter()
+            .next()
+            .flatten()
+        {
             if let Some((embedding, coherence)) = self.hot_tier.get_with_coherence(doc_id) {
                 match self.canonical_vector_state(
                     doc_id,
@@ -733,18 +741,19 @@ impl TieredEngine {
                     coherence,
                     "document-with-metadata hot-tier hit",
                 ) {
-                    CanonicalVectorState::Match => return Some((embedding, metadata)),
+                    CanonicalVectorState::Match if coherence == canonical_coherence => {
+                        return Some((embedding, metadata));
+                    }
+                    // A newer write landed after the canonical read above: the mirror is
+                    // current but no longer pairs with `metadata`; serve the canonical pair.
+                    CanonicalVectorState::Match => {}
                     CanonicalVectorState::TokenMismatch | CanonicalVectorState::LocalCorruption => {
                         self.discard_stale_hot_mirror(doc_id, "document-with-metadata hot-tier hit")
                     }
                     CanonicalVectorState::Missing => {}
                 }
             }
-            if let Some((embedding, _coherence)) =
-                self.cold_tier.fetch_document_with_coherence(doc_id)
-            {
-                return Some((embedding, metadata));
-            }
+            return Some((canonical_embedding, metadata));
         }
 
         if self.hot_tier.exists(doc_id) {
@@ -966,15 +975,26 @@ impl TieredEngine {
                     "bulk query hot-tier hit",
                 ) {
                     CanonicalVectorState::Match => {
-                        if let Some(canonical_metadata) = self.cold_tier.fetch_metadata(doc_id) {
-                            results[i] =
-                                Some((embedding, canonical_metadata, PointQueryTier::HotTier));
-                        } else {
-                            warn!(
-                                doc_id,
-                                "bulk query found canonical vector without canonical metadata; falling back to cold tier"
-                            );
-                            missing_indices.push(i);
+                        // The metadata must come from the same canonical version as the
+                        // mirrored vector: read it together with its coherence token.
+                        match self
+                            .cold_tier
+                            .bulk_fetch_with_coherence(&[doc_id])
+                            .into_iter()
+                            .next()
+                            .flatten()
+                        {
+                            Some((_, canonical_metadata, canonical_coherence))
+                                if canonical_coherence == coherence =>
+                            {
+                                results[i] =
+                                    Some((embedding, canonical_metadata, PointQueryTier::HotTier));
+                            }
+                            _ => {
+                                // Raced with a newer write or a delete: take vector and
+                                // metadata together from the cold tier below.
+                                missing_indices.push(i);
+                            }
                         }
                     }
                     CanonicalVectorState::TokenMismatch | CanonicalVectorState::LocalCorruption => {
